@@ -62,5 +62,4 @@ def all_units():
 
 
 # units on which operators are probed / swept in the quick tier (thorough: all of them)
-QUICK_OPS = ["meters", "unos", "percent", "celsius", "gen.MPS", "gen.Feet3", "gen.KiloM", "gen.Zorks",
-             "gen.MperM", "gen.PiRad"]
+QUICK_OPS = ["meters", "unos", "percent", "celsius", "gen.MPS", "gen.Feet3", "gen.KiloM", "gen.MperM"]
